@@ -216,7 +216,7 @@ func (l *lifeAdapter) ReconfigureProcessor(ctx context.Context, id, proc string)
 // post is the state right after a call returned and no other apply for the same
 // pipeline was outstanding.
 type post struct {
-	Export    string            // normalised Export(id), "" if the export failed
+	Export    string // normalised Export(id), "" if the export failed
 	ExportErr string
 	Mem       map[string]string // entity -> exported fields, in memory
 	Store     map[string][]byte // copy of the store
@@ -410,12 +410,12 @@ func errCode(err error) string {
 // ---------------------------------------------------------------- the run
 
 type exec struct {
-	cs     *c16Case
-	w      *lab.World
-	prov   *provisioning.Service
-	pdb    *provDB
-	res    *result
-	early  map[string]string // tag -> hash planned before the first request was issued
+	cs    *c16Case
+	w     *lab.World
+	prov  *provisioning.Service
+	pdb   *provDB
+	res   *result
+	early map[string]string // tag -> hash planned before the first request was issued
 
 	outstanding int32 // control calls issued by this harness that have not returned
 	applies     int32 // outstanding ApplyPlanLive calls (all pipelines)
@@ -685,9 +685,14 @@ func runC16(cs *c16Case, pick func(n int) int) *result {
 	// Bounded quiescence (R3): the verdict "never returns" needs a silence far above every engine
 	// timer in play. arch-v2 bounds its StopAndWait by DefaultStopAndWaitTimeout (30 s) and then
 	// returns a coded error, so only a longer silence proves a wedge there.
-	quiet := lab.Quiet
-	if c.Engine == "v2" && quiet < 40*time.Second {
+	// The default engine's source teardown waits up to connector.DefaultTeardownFlushTimeout (10 s)
+	// for a flush; 25 s is above that too.
+	quiet := 25 * time.Second
+	if c.Engine == "v2" {
 		quiet = 40 * time.Second
+	}
+	if lab.Quiet > quiet {
+		quiet = lab.Quiet
 	}
 	maxSteps := 60*c.TotalRecords() + 800
 	next := 0
